@@ -4,6 +4,7 @@
 # author: Thomas Moreau and Olivier Grisel
 #
 import time
+import queue
 import warnings
 import threading
 import multiprocessing as mp
@@ -248,7 +249,17 @@ class _ReusablePoolExecutor(ProcessPoolExecutor):
                 nb_children_alive = sum(p.is_alive() for p in processes)
                 self._max_workers = max_workers
                 for _ in range(max_workers, nb_children_alive):
-                    self._call_queue.put(None)
+                    # Do not block for ever on a full call queue while holding
+                    # the lock: once the executor is flagged as broken or
+                    # shutdown, the workers that would make room in the queue
+                    # are gone and the manager thread needs this lock to
+                    # terminate.
+                    while not (self._flags.broken or self._flags.shutdown):
+                        try:
+                            self._call_queue.put(None, timeout=1e-2)
+                            break
+                        except queue.Full:
+                            pass
             while (
                 len(self._processes) > max_workers and not self._flags.broken
             ):
